@@ -1,3 +1,4 @@
+pub mod atomics;
 pub mod c01;
 pub mod c07;
 pub mod c08;
